@@ -4,12 +4,16 @@ import (
 	"context"
 	"encoding/json"
 	"fmt"
+	"net/http"
 	"sync"
 	"testing"
 	gotime "time"
 
+	"connectrpc.com/connect"
 	"pgregory.net/rapid"
 
+	api "github.com/yorkie-team/yorkie/api/yorkie/v1"
+	"github.com/yorkie-team/yorkie/api/yorkie/v1/v1connect"
 	"github.com/yorkie-team/yorkie/pkg/document"
 	yjson "github.com/yorkie-team/yorkie/pkg/document/json"
 	"github.com/yorkie-team/yorkie/pkg/document/presence"
@@ -38,6 +42,7 @@ type SnapRace struct {
 	Park     int  `json:"park"`     // snapParkNames
 	Regrow   int  `json:"regrow"`   // edits of the new generation: old head + Regrow - 2
 	Force    bool `json:"force"`    // forced compaction while the writer is still attached (else it detaches first)
+	Hist     int  `json:"hist"`     // != 0: the parked party is an admin GetSnapshotMeta (history view) of serverSeq head+1-Hist instead of the background snapshot
 }
 
 var snapParkNames = []string{"FindClosestSnapshotInfo/before", "FindChangesBetweenServerSeqs/before", "CreateSnapshotInfo/before", "CreateSnapshotInfo/after"}
@@ -50,6 +55,7 @@ func genSnapRace() *rapid.Generator[SnapRace] {
 			Park:     rapid.IntRange(0, len(snapParkNames)-1).Draw(t, "park"),
 			Regrow:   rapid.IntRange(0, 6).Draw(t, "regrow"),
 			Force:    rapid.IntRange(0, 2).Draw(t, "force") == 0,
+			Hist:     max(0, rapid.IntRange(-3, 3).Draw(t, "hist")),
 		}
 	})
 }
@@ -116,11 +122,18 @@ func runSnapRace(c SnapRace) (fail *kit.Failure, ev map[string]int, hist []strin
 	// park the background snapshot
 	var mu sync.Mutex
 	parkedOnce := false
+	histArmed := false
 	parked := make(chan struct{}, 1)
 	release := make(chan struct{})
 	s.DB.SetHook(func(hctx context.Context, method string, ph world.Phase, _ any) error {
-		if projects.HasProject(hctx) {
-			return nil // a request handler, not the background snapshot
+		mu.Lock()
+		wantHandler := histArmed
+		mu.Unlock()
+		if projects.HasProject(hctx) != wantHandler {
+			return nil // park the background snapshot (no project in its context) or, for history views, the admin handler
+		}
+		if wantHandler && c.Park >= 2 {
+			return nil
 		}
 		name := method + "/" + map[world.Phase]string{world.Before: "before", world.After: "after"}[ph]
 		mu.Lock()
@@ -135,6 +148,9 @@ func runSnapRace(c SnapRace) (fail *kit.Failure, ev map[string]int, hist []strin
 		}
 		return nil
 	})
+	if c.Hist != 0 {
+		parkedOnce = true // history-view variant: the background snapshot of the last request is not parked
+	}
 	if c.Force {
 		if err := clA.Sync(ctx); err != nil {
 			return kit.Failf("SYNCFAIL", "last batch: %v", err), ev, hist
@@ -143,6 +159,31 @@ func runSnapRace(c SnapRace) (fail *kit.Failure, ev map[string]int, hist []strin
 		return kit.Failf("DETACHFAIL", "%v", err), ev, hist
 	}
 	before := dA.Marshal()
+	histDone := make(chan error, 1)
+	if c.Hist != 0 {
+		// let the background work of the last request finish, then start the history view and park it
+		mu.Lock()
+		parkedOnce = true // nothing of the background snapshot is parked in this variant
+		mu.Unlock()
+		s.WaitIdle()
+		hdi, err := documents.FindDocInfoByKey(ctx, s.BE, proj, dk)
+		if err != nil {
+			return kit.Failf("HARNESS", "docinfo: %v", err), ev, hist
+		}
+		seq := max(1, hdi.ServerSeq+1-int64(c.Hist))
+		s.BE.Cache.Snapshot.Purge()
+		mu.Lock()
+		parkedOnce, histArmed = false, true
+		mu.Unlock()
+		adm := v1connect.NewAdminServiceClient(&http.Client{Transport: headerTransport{"Authorization": "API-Key " + proj.SecretKey}}, "http://"+s.Addr)
+		go func() {
+			_, err := adm.GetSnapshotMeta(ctx, connect.NewRequest(&api.GetSnapshotMetaRequest{DocumentKey: dk.String(), ServerSeq: seq}))
+			histDone <- err
+		}()
+		ev["history_view_variant"]++
+	} else {
+		histDone <- nil
+	}
 	wasParked := false
 	select {
 	case <-parked:
@@ -184,6 +225,14 @@ func runSnapRace(c SnapRace) (fail *kit.Failure, ev map[string]int, hist []strin
 		case <-gotime.After(30 * gotime.Second):
 			return kit.Failf("DEADLOCK", "the compaction did not return within 30 s after the background snapshot was released; locks held:\n%s", world.Locks.HeldSummary()), ev, hist
 		}
+	}
+	select {
+	case herr := <-histDone:
+		if herr != nil {
+			logf("history view returned: %v", herr)
+		}
+	case <-gotime.After(30 * gotime.Second):
+		return kit.Failf("DEADLOCK", "the history view did not return within 30 s; locks held:\n%s", world.Locks.HeldSummary()), ev, hist
 	}
 	ok, cerr := cr.ok, cr.err
 	logf("background snapshot parked=%v at %s; compaction (force=%v) at head %d -> compacted=%v err=%v", wasParked, snapParkNames[c.Park], c.Force, oldHead, ok, cerr)
@@ -297,4 +346,15 @@ func replaySnapRace(raw json.RawMessage) *kit.Failure {
 		fmt.Println("  " + h)
 	}
 	return f
+}
+
+// headerTransport adds fixed headers to every request (admin calls with the project's secret key).
+type headerTransport map[string]string
+
+func (h headerTransport) RoundTrip(req *http.Request) (*http.Response, error) {
+	r := req.Clone(req.Context())
+	for k, v := range h {
+		r.Header.Set(k, v)
+	}
+	return http.DefaultTransport.RoundTrip(r)
 }
